@@ -185,7 +185,7 @@ class Sess:
 SCRIPT = ["connect", "handshake", "enableBLOB", "client-write", "device-traffic"]
 
 
-def run(transport, fault, victim, step, paused=False, second=None):
+def run(transport, fault, victim, step, paused=False, second=None, paused_survivor=None):
     """second = (fault2, victim2, step2): another TCP connection ends too; paused: the victim's flow control is
     paused from the start, so device traffic for it is queued behind a pending drain when it ends"""
     from indi.device.values import BLOB
@@ -210,6 +210,14 @@ def run(transport, fault, victim, step, paused=False, second=None):
         injected2 = [False]
         if paused and vconn["kind"] == "tcp":
             vconn["link"].server_ep.pause()
+        sconn = None
+        if paused_survivor is not None:
+            # a slow survivor: its flow control is paused for the whole script, so device traffic queues up behind a
+            # pending drain while the victim's connection ends; it is resumed afterwards and must have lost nothing
+            sconn = conns[paused_survivor]
+            if sconn is vconn or sconn is vconn2:
+                return [], False
+            sconn["link"].server_ep.pause()
 
         def maybe(k):
             nonlocal injected
@@ -246,6 +254,15 @@ def run(transport, fault, victim, step, paused=False, second=None):
         if vconn2:
             s.finish_fault(vconn2)
         victims = [vconn] + ([vconn2] if vconn2 else [])
+        if sconn is not None:
+            sconn["link"].server_ep.resume()
+            s.pump()
+            out_s = s.output(sconn)
+            pol = sconn["policy"]
+            # what was routed while it was paused (only traffic after its handshake/enableBLOB steps counts)
+            if step <= 3 and pol in (None, "Never", "Also") and out_s.count("traffic1") != 1:
+                fails.append(("slow-survivor-lost-traffic", d0, "step %d: the slow surviving connection %s holds %d copies of the update routed while it was paused" % (step, sconn["idx"], out_s.count("traffic1"))))
+        wac = {id(c): c["link"].server_ep.transport.writes_after_close for c in victims if c["kind"] == "tcp"}
         # --- after the end of the victim's connection
         marks = {id(c): len(s.output(c)) for c in conns}
         dev.g.t.a.value = "AFTER-TEXT"
@@ -254,6 +271,10 @@ def run(transport, fault, victim, step, paused=False, second=None):
         router = w.router
         for vconn in victims:
             fails += check_victim(s, vconn, router, server_tcp, marks, d0, step)
+            if vconn["kind"] == "tcp":
+                more = vconn["link"].server_ep.transport.writes_after_close - wac[id(vconn)]
+                if more:
+                    fails.append(("delivery-to-ended-connection", d0, "step %d: %d write(s) attempted on the ended connection for traffic routed after it had ended" % (step, more)))
         vconn = victims[0]
         vh = vconn["handler"]
         for c in conns:
@@ -342,6 +363,9 @@ def run_shard(shard):
             cases.append(dict(victim=victim, step=step))
             if transport == "tcp":
                 cases.append(dict(victim=victim, step=step, paused=True))
+            for ps in (0, 1, 2):
+                if transport != "tcp" or ps != victim:
+                    cases.append(dict(victim=victim, step=step, paused_survivor=ps))
             # a second connection ends as well (another fault kind, same or later step)
             f2s = FAULTS if tier == "thorough" else FAULTS[(FAULTS.index(fault) + 1) % len(FAULTS) :][:2]
             for f2 in f2s:
@@ -355,7 +379,7 @@ def run_shard(shard):
         res["evaluations"] += 1
         res["injected"] += 1 if injected else 0
         for clause, disc, what in fails:
-            extra = (",paused" if c.get("paused") else "") + (",second=%s" % c["second"][0] if c.get("second") else "")
+            extra = (",paused" if c.get("paused") else "") + (",second=%s" % c["second"][0] if c.get("second") else "") + (",slow-survivor" if c.get("paused_survivor") is not None else "")
             key = (clause, disc + extra)
             if key in sig:
                 sig[key]["count"] += 1
@@ -382,6 +406,6 @@ def finish(tier, seed, m):
 
 def replay(rep):
     second = tuple(rep["second"]) if rep.get("second") else None
-    fails, inj = run(rep["transport"], rep["fault"], rep["victim"], rep["step"], rep.get("paused", False), second)
-    extra = (",paused" if rep.get("paused") else "") + (",second=%s" % second[0] if second else "")
+    fails, inj = run(rep["transport"], rep["fault"], rep["victim"], rep["step"], rep.get("paused", False), second, rep.get("paused_survivor"))
+    extra = (",paused" if rep.get("paused") else "") + (",second=%s" % second[0] if second else "") + (",slow-survivor" if rep.get("paused_survivor") is not None else "")
     return [{"clause": c, "disc": d + extra, "what": w} for c, d, w in fails]
